@@ -463,6 +463,20 @@ FACET_ALTERNATIVES = [
 ]
 
 
+def _additive_constants(atom):
+    """numeric constants added to / subtracted from something inside a comparison atom: `x > duration + 0.05`"""
+    out = []
+    for z in atom[1:]:
+        if z is None or not hasattr(z, "op"):
+            continue
+        for x in tm.walk(z):
+            if x.op == "bin" and x.a[0] in ("+", "-"):
+                for y in x.a[1:]:
+                    if y.op == "const" and isinstance(y.a[0], (int, float)) and not isinstance(y.a[0], bool) and y.a[0] != 0:
+                        out.append(y.a[0])
+    return out
+
+
 def rule_facets(ctx):
     cache = {}
     for func, name, op, lhs, rhs in FACETS:
@@ -478,16 +492,26 @@ def rule_facets(ctx):
         if private and ptoks and all(p not in f.all_params for p in ptoks):
             yield ob("C14.FACETS", f, "%s:%s" % (func, name), True, "not applicable: the private helper no longer has the parameter %s this check was about" % ptoks)
             continue
+        slack = None
         for r, atoms in cache[func]:
             if r.exc not in ("ValueError", "InvalidChordException"):
                 continue
-            if any(_match(a, op, lhs, rhs) for a in atoms):
+            ms_ = [a for a in atoms if _match(a, op, lhs, rhs)]
+            if ms_:
+                sl = [(a, _additive_constants(a)) for a in ms_]
+                if all(cs for _, cs in sl):
+                    # the documented comparison, but with a constant added to one side: a bound with slack
+                    slack = (r, sl[0][1])
+                    continue
                 hit = r
                 break
             # other spellings of the same documented check
             if any(_match(a, op2, l2, r2) for (f2, n2, op2, l2, r2) in FACET_ALTERNATIVES if (f2, n2) == (func, name) for a in atoms):
                 hit = r
                 break
+        if hit is None and slack is not None:
+            yield ob("C14.FACETS", f, "%s:%s" % (func, name), False, "the documented check `%s %s %s` is made with a margin of %s added to one side: values just beyond the documented bound are accepted" % (lhs, op, rhs if rhs is not None else "", ", ".join(repr(c) for c in slack[1])), node=slack[0].node)
+            continue
         yield ob("C14.FACETS", f, "%s:%s" % (func, name), hit is not None, ("raises %s when %s %s %s" % (hit.exc, lhs, op, rhs if rhs is not None else "")) if hit is not None else "no raise guarded by the documented check `%s %s %s`" % (lhs, op, rhs if rhs is not None else ""), node=hit.node if hit is not None else None)
 
 
